@@ -1,7 +1,7 @@
 (* C02 — property theorems only. *)
 From Coq Require Import List Bool Sorted.
 Import ListNotations.
-From IV Require Import C02.Defs C02.Proofs.
+From IV Require Import C02.Defs C02.Proofs C02.ArityDefs C02.ArityProofs.
 
 (* overload dispatch: in a set that uses one C++ type per Python category and whose members differ in category somewhere, a call whose
    arguments correspond exactly to the parameters of overload o runs o; for every class hierarchy in which a base ranks below its derived classes *)
@@ -32,3 +32,17 @@ Theorem c02_bool_argument_refuted :
   dispatch is_base (sort depth [[PBool]; [PInt]]) [ABool] = Some [PInt].
 Proof. exact bool_argument_refuted. Qed.
 Print Assumptions c02_bool_argument_refuted.
+
+(* the arity table (map_sets, collapse_default_remaps, the generated switch): for every set of overloads with any ranges of accepted
+   argument counts (trailing defaults) and every argument count, the overloads the generated code can run are exactly those that take that
+   count: collapsing the entries loses none and adds none *)
+Theorem c02_arity_table_exact : forall rs, NoDup (map r_id rs) -> forall a, candidates (table rs) a = set_at rs a.
+Proof. exact table_candidates. Qed.
+Print Assumptions c02_arity_table_exact.
+
+(* the assignment of collapse_default_remaps written the other way round loses k(string) next to k(int, int = 1) *)
+Theorem c02_arity_table_wrong_refuted :
+  let rs := [{| r_id := 0; r_min := 1; r_max := 2 |}; {| r_id := 1; r_min := 1; r_max := 1 |}] in
+  NoDup (map r_id rs) /\ candidates (table_wrong rs) 1 <> set_at rs 1 /\ candidates (table rs) 1 = set_at rs 1.
+Proof. exact table_wrong_refuted. Qed.
+Print Assumptions c02_arity_table_wrong_refuted.
